@@ -50,3 +50,86 @@ package keygen
 //@   ensures[C14] result1 != nil ==> result0 == nil
 //@   ensures[C14] result1 == nil ==> (result0 != nil && len(result0.ChainKey) == 32)
 //@   assert_at[C14] DeriveScalar "bip32.DeriveScalar(publicKey, c.ChainKey, i)": arg1 == c.ChainKey && arg2 == i && iface(arg0) == c.Public
+
+// ---- round state invariants (established by StartKeygen and the Finalize methods) and what the CBOR decoder leaves in
+// the content templates (A-CBOR: pre-shaped interface values stay non-nil, pointers may be nil)
+//@ pred dhok(h *round.Helper) := h != nil && h.hash != nil && h.hash.h != nil && h.info.Group != nil && typeis(h.info.Group, curve.Secp256k1) && !held(h.mtx)
+//@ pred d1rok(r *round1R) := r != nil && dhok(r.Helper) && r.secretShare != nil && r.publicShare != nil && ot.csrok(r.receiver) && (r.refresh ==> r.public != nil)
+//@ pred d2rok(r *round2R) := r != nil && d1rok(r.round1R) && r.refreshScalar != nil && r.refreshScalar != r.secretShare
+//@ pred d1sok(r *round1S) := r != nil && dhok(r.Helper) && r.secretShare != nil && r.publicShare != nil && ot.cssok(r.sender) && (r.refresh ==> r.public != nil)
+//@ pred d2sok(r *round2S) := r != nil && d1sok(r.round1S) && ot.cssok1(r.sender) && r.refreshScalar != nil && r.refreshScalar != r.secretShare
+//@ pred dec_m1r(b *message1R) := b.OtMsg != nil ==> (b.OtMsg.Msg.B != nil && (b.OtMsg.Msg.BProof != nil ==> zksch.shapedProof(b.OtMsg.Msg.BProof)))
+//@ pred dec_m1s(b *message1S) := b.PublicShare != nil && b.RefreshScalar != nil && (b.Proof != nil ==> zksch.shapedProof(b.Proof))
+//@ pred dec_m2r(b *message2R) := b.PublicShare != nil && b.RefreshScalar != nil && (b.Proof != nil ==> zksch.shapedProof(b.Proof))
+
+// Sender round 1: the receiver's three commitments are stored only if well-formed, and exactly as sent.
+//@ func (*round1S).VerifyMessage
+//@   nopanic[C05]
+//@   requires d1sok(r) && msg.Content != nil
+//@   modifies nothing
+//@   allocates
+//@   let body = msg.Content.(*message1R)
+//@   ensures[C03,C19] result == nil ==> typeis(msg.Content, *message1R) && body != nil && body.OtMsg != nil && len(body.Commit) == 64 && len(body.ChainKeyCommit) == 64 && len(body.RefreshCommit) == 64
+//@ func (*round1S).StoreMessage
+//@   nopanic[C05]
+//@   requires d1sok(r) && typeis(msg.Content, *message1R) && msg.Content.(*message1R) != nil && msg.Content.(*message1R).OtMsg != nil && dec_m1r(msg.Content.(*message1R))
+//@   let body = msg.Content.(*message1R)
+//@   ensures[C03,C19] result == nil ==> r.receiverCommit == body.Commit && r.chainKeyCommit == body.ChainKeyCommit && r.refreshCommit == body.RefreshCommit
+
+// Receiver round 2: the sender's public share is accepted only with a Schnorr proof of knowledge for exactly that
+// point, bound to this session's transcript; a 32-byte chain key; all fields present.
+//@ func (*round2R).VerifyMessage
+//@   nopanic[C05]
+//@   requires d2rok(r) && msg.Content != nil && (typeis(msg.Content, *message1S) ==> (msg.Content.(*message1S) != nil ==> dec_m1s(msg.Content.(*message1S))))
+//@   let body = msg.Content.(*message1S)
+//@   ensures[C03] result == nil ==> typeis(msg.Content, *message1S) && body != nil && body.Proof != nil && body.PublicShare != nil && body.RefreshScalar != nil && body.OtMsg != nil
+//@   ensures[C03,C14] result == nil ==> lastresult(Verify) && len(body.ChainKey) == 32
+//@   assert_at[C03] Verify "if !body.Proof.Verify(r.Hash(), body.PublicShare, nil) {": arg0 == body.Proof && arg2 == body.PublicShare && hstate(arg1) == hstate(r.Helper.hash)
+// The group key is the sum of both public shares (keygen) or stays the old one (refresh, C08); the new share is
+// old + own refresh scalar - the peer's refresh scalar: the two parties' changes cancel, so the key does not move.
+//@ func (*round2R).StoreMessage
+//@   nopanic[C05]
+//@   requires d2rok(r) && typeis(msg.Content, *message1S) && msg.Content.(*message1S) != nil && dec_m1s(msg.Content.(*message1S)) && msg.Content.(*message1S).OtMsg != nil
+//@   let body = msg.Content.(*message1S)
+//@   ensures[C03,C02] (result == nil && !r.refresh) ==> ptval(r.public) == p_add(ptval(r.publicShare), ptval(body.PublicShare))
+//@   ensures[C08] (result == nil && r.refresh) ==> r.public == old(r.public)
+//@   ensures[C08] result == nil ==> scval(r.secretShare) == s_add(s_add(old(scval(r.secretShare)), scval(r.refreshScalar)), s_neg(scval(body.RefreshScalar)))
+//@   ensures[C08] result == nil ==> fresh(r.secretShare)
+
+// Sender round 2: the receiver's public share, chain key and refresh scalar are accepted only if they open the three
+// commitments received in round 1 (each commitment with ITS decommitment and value), and the public share comes with a
+// Schnorr proof of knowledge for exactly that point.
+//@ func (*round2S).VerifyMessage
+//@   nopanic[C05]
+//@   requires d2sok(r) && msg.Content != nil && (typeis(msg.Content, *message2R) ==> (msg.Content.(*message2R) != nil ==> dec_m2r(msg.Content.(*message2R))))
+//@   let body = msg.Content.(*message2R)
+//@   ensures[C03] result == nil ==> typeis(msg.Content, *message2R) && body != nil && body.Proof != nil && body.PublicShare != nil && body.OtMsg != nil
+//@   ensures[C03,C19,C14] result == nil ==> lastresult(Verify) && lastresult(Decommit) && callcount(Decommit) == 3 && len(body.ChainKey) == 32
+//@   assert_at[C03,C19] Decommit "if !r.Hash().Decommit(r.receiverCommit, body.Decommit, body.PublicShare) {": arg1 == r.receiverCommit && arg2 == body.Decommit && len(arg3) == 1 && arg3[0] == iface(body.PublicShare) && hstate(arg0) == hstate(r.Helper.hash)
+//@   assert_at[C03,C19,C14] Decommit "if !r.Hash().Decommit(r.chainKeyCommit, body.ChainKeyDecommit, body.ChainKey) {": arg1 == r.chainKeyCommit && arg2 == body.ChainKeyDecommit && len(arg3) == 1 && typeis(arg3[0], []byte) && arg3[0].([]byte) == body.ChainKey && hstate(arg0) == hstate(r.Helper.hash)
+//@   assert_at[C03,C19,C08] Decommit "if !r.Hash().Decommit(r.refreshCommit, body.RefreshDecommit, body.RefreshScalar) {": arg1 == r.refreshCommit && arg2 == body.RefreshDecommit && len(arg3) == 1 && arg3[0] == iface(body.RefreshScalar) && hstate(arg0) == hstate(r.Helper.hash)
+//@   assert_at[C03] Verify "if !body.Proof.Verify(r.Hash(), body.PublicShare, nil) {": arg0 == body.Proof && arg2 == body.PublicShare && hstate(arg1) == hstate(r.Helper.hash) && lastresult(Decommit)
+//@ func (*round2S).StoreMessage
+//@   nopanic[C05]
+//@   requires d2sok(r) && typeis(msg.Content, *message2R) && msg.Content.(*message2R) != nil && dec_m2r(msg.Content.(*message2R)) && msg.Content.(*message2R).OtMsg != nil
+//@   let body = msg.Content.(*message2R)
+//@   ensures[C03,C02] !r.refresh ==> ptval(r.public) == p_add(ptval(r.publicShare), ptval(body.PublicShare))
+//@   ensures[C08] r.refresh ==> r.public == old(r.public)
+//@   ensures[C08] scval(r.secretShare) == s_add(s_add(old(scval(r.secretShare)), scval(r.refreshScalar)), s_neg(scval(body.RefreshScalar)))
+//@   ensures[C08] fresh(r.secretShare)
+
+// Round 3: only a present OT message is handed to the setup layer.
+//@ func (*round3R).VerifyMessage
+//@   nopanic[C05]
+//@   modifies nothing
+//@   ensures[C03] result == nil ==> typeis(msg.Content, *message2S) && msg.Content.(*message2S) != nil && msg.Content.(*message2S).OtMsg != nil
+//@ func (*round3R).StoreMessage
+//@   nopanic[C05]
+//@   requires r != nil && d2rok(r.round2R) && typeis(msg.Content, *message2S) && msg.Content.(*message2S) != nil && msg.Content.(*message2S).OtMsg != nil
+//@ func (*round3S).VerifyMessage
+//@   nopanic[C05]
+//@   modifies nothing
+//@   ensures[C03] result == nil ==> typeis(msg.Content, *message3R) && msg.Content.(*message3R) != nil && msg.Content.(*message3R).OtMsg != nil
+//@ func (*round3S).StoreMessage
+//@   nopanic[C05]
+//@   requires r != nil && d2sok(r.round2S) && typeis(msg.Content, *message3R) && msg.Content.(*message3R) != nil && msg.Content.(*message3R).OtMsg != nil
